@@ -12,7 +12,8 @@ ASSUMPTIONS = {
     "A-rank": "text-level reading: the candidate built by the contracted rule chain is the top-scoring one (floating-point ranking over all candidates is not expressible as a function contract)",
     "A-real": "floats treated as reals; IEEE rounding, overflow and NaN ignored",
     "A-lib": "list.sort/sorted return a sorted stable permutation; pickle round trip is structural; str.split/join/strip per documentation",
-    "A-log": "dropped logger.* statements do not raise",
+    "A-log": "the call of a logger.* statement is dropped; its argument expressions are evaluated without forking, so an exception they raise unconditionally on a path is seen (exceptions inside __repr__/__str__ of logged values and in forking sub-expressions are not)",
+    "A-analysis": "C17, duplication of a positive example: for a document with several distinct n-grams the step sum_i c_i*log(1+c_i/a_i) >= C*log(1+C/A) uses the convexity of log(1+1/x) (Jensen) -- a paper argument in DESIGN A.9, not machine-checked; the one-feature case and the prior part are discharged lemmas",
     "A-noalias": "distinct arguments of a rule are distinct objects",
 }
 
